@@ -73,7 +73,7 @@ func VerifC20_Sweep() {
 	verifrt.InstallDirListing()
 	w := newWorld(true, config.CRLFetchModeActively, false, config.SignatureValidationModeVerify)
 	// the work_dir itself may be named like a temporary artefact: it is never an artefact of its own sweep
-	B := []string{"/work", "/data/crl_cache_tmp"}[verifrt.Choose(2)]
+	B := []string{"/work", "/data/crl_cache_tmp", "/data/crl[site-a]"}[verifrt.Choose(3)] // ... or contain a glob metacharacter
 	w.cfg.WorkDir = B
 	verifrt.Disk[B] = &verifrt.Dir{Exists: true}
 	mk := func(p string, file bool) { verifrt.Disk[p] = &verifrt.Dir{Exists: true, IsFile: file} }
